@@ -94,6 +94,19 @@ func (e *fieldError) Error() string {
 	return sb.String()
 }
 
+// enter is called before a TagList or TagCompound value is read and leave after it.
+// Values nested deeper than maxNestingDepth (the limit the SNBT parser has as well) are refused:
+// every level costs a stack frame, and a goroutine that exhausts its stack cannot be recovered.
+func (d *Decoder) enter() error {
+	if d.depth > maxNestingDepth { // the outermost value is depth 0
+		return errors.New("exceeded max nesting depth")
+	}
+	d.depth++
+	return nil
+}
+
+func (d *Decoder) leave() { d.depth-- }
+
 // ErrEND error will be returned when reading a NBT with only Tag_End
 var ErrEND = errors.New("unexpected TAG_End")
 
@@ -379,6 +392,10 @@ func (d *Decoder) unmarshal(val reflect.Value, tagType byte) error {
 		}
 
 	case TagList:
+		if err := d.enter(); err != nil {
+			return err
+		}
+		defer d.leave()
 		listType, err := d.r.ReadByte()
 		if err != nil {
 			return err
@@ -424,6 +441,10 @@ func (d *Decoder) unmarshal(val reflect.Value, tagType byte) error {
 		}
 
 	case TagCompound:
+		if err := d.enter(); err != nil {
+			return err
+		}
+		defer d.leave()
 		u, ut, val, assign := indirect(val, false)
 		if assign != nil {
 			defer assign()
@@ -704,6 +725,10 @@ func (d *Decoder) rawRead(tagType byte) error {
 		}
 
 	case TagList:
+		if err := d.enter(); err != nil {
+			return err
+		}
+		defer d.leave()
 		listType, err := d.r.ReadByte()
 		if err != nil {
 			return err
@@ -721,6 +746,10 @@ func (d *Decoder) rawRead(tagType byte) error {
 			}
 		}
 	case TagCompound:
+		if err := d.enter(); err != nil {
+			return err
+		}
+		defer d.leave()
 		for {
 			tt, _, err := d.readTag()
 			if err != nil {
